@@ -497,6 +497,11 @@ func (c *Ctx) forwardsExec(fd *ast.FuncDecl, depth int, seen map[*ast.FuncDecl]b
 				for _, f := range splitFacts(c.factsAt(fd.Body, rs)) {
 					be, isB := stripParens(f.Cond).(*ast.BinaryExpr)
 					if isB && isNilIdent(be.Y) && (be.Op == token.NEQ) == f.Pos && parseErr[c.objOf(be.X)] {
+						// … and the error tested is still the parse step's: no other assignment to the variable (the
+						// error of the execution, say) may reach this return
+						if at := c.otherDefReaches(fd, rs, c.objOf(be.X)); at != "" {
+							okAll, why = false, "returns no results under a test of an error variable that execute's error was assigned to ("+at+"): blocks completed before a runtime error are dropped"
+						}
 						return true
 					}
 				}
@@ -687,6 +692,8 @@ func checkC03(c *Ctx, r *Report) {
 	ruleResultOnError(c, r, "result-on-error")
 	ruleBlockKey(c, r, "key-and-names")
 	ruleFieldAccess(c, r, "field-access")
+	r.rule("operand-emission", 6, "the emission primitives write what the VM decodes: emitOp one opcode byte, emitUvarint exactly the bytes uvarintToBytes produced for the operand (a slot, a constant index, a count), emitBytes each byte once: an operand emitted in another form names another slot or constant")
+	checkEmitPrimitives(c, r, "operand-emission")
 	r.rule("fields-writers", 2, "Block.Fields is written only by SETFIELD's helper and by ENDBLOCK/DEFBLOCK in the VM loop")
 	c.ownership(r, "fields-writers", "Block", "Fields", fieldsOwners, true)
 	ruleVMEffect(c, r, "vm-effect", true)
@@ -719,4 +726,87 @@ func (c *Ctx) paramReadOnly(call *ast.CallExpr, arg ast.Expr) bool {
 		return false
 	}
 	return ssaReadOnly(sf.Params[idx], 0)
+}
+
+// otherDefReaches: walking back from `at` through the preceding statements of the enclosing blocks, is there an
+// assignment to v that is not a parse step `(prog, v) = f(…)` with f returning (*Prog, error), and that can fall
+// through to `at`? Returns its position, or "". The nearest plain parse-step assignment ends the walk (it kills
+// what came before); an assignment inside a compound statement counts unless the block it sits in ends in a return.
+func (c *Ctx) otherDefReaches(fd *ast.FuncDecl, at ast.Stmt, v types.Object) string {
+	if v == nil {
+		return ""
+	}
+	pm := parentMap(fd.Body)
+	isParseStep := func(as *ast.AssignStmt) bool {
+		return len(as.Lhs) == 2 && len(as.Rhs) == 1 && isNamed(c.typeOf(as.Lhs[0]), bclPath, "Prog") && c.isObj(as.Lhs[1], v)
+	}
+	assigns := func(as *ast.AssignStmt) bool {
+		for _, l := range as.Lhs {
+			if c.isObj(l, v) {
+				return true
+			}
+		}
+		return false
+	}
+	endsInReturn := func(b *ast.BlockStmt) bool {
+		if b == nil || len(b.List) == 0 {
+			return false
+		}
+		_, ok := b.List[len(b.List)-1].(*ast.ReturnStmt)
+		return ok
+	}
+	var node ast.Node = at
+	for node != nil && node != ast.Node(fd.Body) {
+		par := pm[node]
+		var list []ast.Stmt
+		switch b := par.(type) {
+		case *ast.BlockStmt:
+			list = b.List
+		case *ast.CaseClause:
+			list = b.Body
+		case *ast.CommClause:
+			list = b.Body
+		}
+		idx := -1
+		for i, st := range list {
+			if ast.Node(st) == node {
+				idx = i
+			}
+		}
+		for i := idx - 1; i >= 0; i-- {
+			if as, ok := list[i].(*ast.AssignStmt); ok && assigns(as) {
+				if isParseStep(as) {
+					return ""
+				}
+				return c.pos(as.Pos())
+			}
+			found := ""
+			ast.Inspect(list[i], func(x ast.Node) bool {
+				if _, isLit := x.(*ast.FuncLit); isLit {
+					return false
+				}
+				as, ok := x.(*ast.AssignStmt)
+				if !ok || !assigns(as) || isParseStep(as) || found != "" {
+					return true
+				}
+				// the block the assignment sits in
+				var blk *ast.BlockStmt
+				for q := pm[ast.Node(as)]; q != nil; q = pm[q] {
+					if b, isB := q.(*ast.BlockStmt); isB {
+						blk = b
+						break
+					}
+				}
+				if !endsInReturn(blk) {
+					found = c.pos(as.Pos())
+				}
+				return true
+			})
+			if found != "" {
+				return found
+			}
+		}
+		node = par
+	}
+	return ""
 }
